@@ -65,8 +65,10 @@ def run(ctx):
         "hypothesis), and so is Int128.Div64 with its own sign fix-up on an int64 (C01.idiv64_spec).",
     ]
     ctx.harness("./cmd/c01")
+    # The harness gives every call a 2 s deadline (`hang`, stream abandoned after three) and checks after every call
+    # that the exported limit variables are intact; the stream time-out is therefore only a last resort.
     ctx.diff(area="int128", driver="drv_c01", n={"quick": 200000, "thorough": 20000000},
-             trivial=lambda l, o: False,
+             trivial=lambda l, o: False, timeout=150 if ctx.tier == "quick" else 900,
              theorem="C01.* (model = Z mod 2^128 specification); impl != model on this input")
     _paths(ctx)
 
@@ -191,5 +193,7 @@ def _paths(ctx):
             "l1=1", "l1=2", "l2=1", "l2=2"]
     missing = [k for k in need if not any(k in t for t in ctx.tags)]
     ctx.extra["division_paths_missing"] = missing
-    if missing:
+    # A self-check of the generator, not a property of the code: a tree with another (behaviour-preserving) value of
+    # divBinaryShiftThreshold legitimately has other reachable paths, so it only fails the run on the reference tree.
+    if missing and ctx.repo == "/repo":
         ctx.lean_problems.append("generator no longer reaches division paths: " + ", ".join(missing))
